@@ -35,6 +35,7 @@ import (
 	"testing"
 	"time"
 
+	"github.com/labstack/echo/v4"
 	"github.com/lestrrat-go/jwx/v2/jwa"
 	"github.com/sirupsen/logrus"
 	"github.com/nuts-foundation/go-did/did"
@@ -150,6 +151,7 @@ type c02Op struct {
 	ClientState string `json:"client_state,omitempty"`
 	Challenge   string `json:"challenge,omitempty"`
 	Method      string `json:"method,omitempty"`
+	HTTP bool `json:"http,omitempty"` // the operation goes through the real echo routes (form binding, strict handler, error writers)
 	// introspect / probe / advance
 	Token    string `json:"token,omitempty"`
 	Extended bool   `json:"extended,omitempty"`
@@ -181,6 +183,7 @@ type c02World struct {
 	defs     map[int]pe.PresentationDefinition
 	policy   []c02Policy
 	dir      string
+	echo     *echo.Echo
 	verifyArgsBad bool
 }
 
@@ -274,6 +277,10 @@ func c02NewWorld(t *testing.T, cfg c02Op) *c02World {
 	}).AnyTimes()
 	authn.EXPECT().IAMClient().Return(ic).AnyTimes()
 	w.w = &Wrapper{auth: authn, subjectManager: sm, vcr: mvcr, storageEngine: engine, policyBackend: pdp, jar: jar{auth: authn}}
+	// the HTTP face: the node's error handler and the routes exactly as Wrapper.Routes registers them
+	w.echo = echo.New()
+	w.echo.HTTPErrorHandler = core.CreateHTTPErrorHandler()
+	w.w.Routes(w.echo)
 	for i := 0; i < 3; i++ {
 		k, _ := ecdsa.GenerateKey(elliptic.P256(), crand.Reader)
 		w.dpopKeys = append(w.dpopKeys, k)
@@ -495,6 +502,42 @@ func (w *c02World) script(vps []c02VP) {
 	}
 }
 
+// post sends a form to the real routes and returns status and body
+func (w *c02World) post(path string, form url.Values, dpopHeader string) (int, []byte) {
+	req := httptest.NewRequest(http.MethodPost, path, strings.NewReader(form.Encode()))
+	req.Header.Set("Content-Type", "application/x-www-form-urlencoded")
+	req.Header.Set("Accept", "application/json")
+	if dpopHeader != "" {
+		req.Header.Set("DPoP", dpopHeader)
+	}
+	rec := httptest.NewRecorder()
+	w.echo.ServeHTTP(rec, req)
+	return rec.Code, rec.Body.Bytes()
+}
+
+// httpToken renders the answer of the token endpoint like the direct call does
+func (w *c02World) httpToken(status int, body []byte) string {
+	if status == http.StatusOK {
+		var r HandleTokenRequest200JSONResponse
+		if err := json.Unmarshal(body, &r); err != nil {
+			return "unparsable-200:" + string(body)
+		}
+		return w.tokenResponse(r)
+	}
+	var e struct {
+		Error       string `json:"error"`
+		Description string `json:"error_description"`
+	}
+	if err := json.Unmarshal(body, &e); err != nil || e.Error == "" {
+		b := string(body)
+		if len(b) > 80 {
+			b = b[:80]
+		}
+		return fmt.Sprintf("http-%d:%s", status, b)
+	}
+	return c02Err(oauth.OAuth2Error{Code: oauth.ErrorCode(e.Error), Description: e.Description})
+}
+
 func (w *c02World) execS2S(op *c02Op) string {
 	w.script(op.VPs)
 	hdr, d := w.dpopHeader(op.DPoP)
@@ -511,6 +554,16 @@ func (w *c02World) execS2S(op *c02Op) string {
 	}
 	op.T = w.nowNs()
 	out := c02Recover(func() string {
+		if op.HTTP {
+			form := url.Values{"grant_type": {body.GrantType}}
+			for k, v := range map[string]*string{"assertion": body.Assertion, "presentation_submission": body.PresentationSubmission,
+				"scope": body.Scope, "client_id": body.ClientId} {
+				if v != nil {
+					form.Set(k, *v)
+				}
+			}
+			return w.httpToken(w.post("/oauth2/"+url.PathEscape(op.Subject)+"/token", form, hdr))
+		}
 		resp, err := w.w.HandleTokenRequest(w.ctx(hdr, ""), HandleTokenRequestRequestObject{SubjectID: op.Subject, Body: &body})
 		if err != nil {
 			return c02Err(err)
@@ -538,6 +591,24 @@ func (w *c02World) execIntrospect(op *c02Op) string {
 	}
 	op.T = w.nowNs()
 	return c02Recover(func() string {
+		if op.HTTP {
+			path := "/internal/auth/v2/accesstoken/introspect"
+			if op.Extended {
+				path += "_extended"
+			}
+			status, body := w.post(path, url.Values{"token": {real}}, "")
+			if status == http.StatusOK {
+				return "ok " + w.canonIntrospection(body)
+			}
+			var problem struct {
+				Detail string `json:"detail"`
+			}
+			_ = json.Unmarshal(body, &problem)
+			if i := strings.Index(problem.Detail, "InputDescriptorConstraintIdMap contains reserved claim name: "); i >= 0 {
+				return "err:reserved-claim:" + problem.Detail[i+len("InputDescriptorConstraintIdMap contains reserved claim name: "):]
+			}
+			return fmt.Sprintf("http-%d:%s", status, problem.Detail)
+		}
 		rec := httptest.NewRecorder()
 		ctx := w.ctx("", "application/x-www-form-urlencoded")
 		if op.Extended {
@@ -852,13 +923,43 @@ func (w *c02World) execAuthResp(op *c02Op) string {
 	op.T = w.nowNs()
 	defer func() { w.verifyArgsBad = false }()
 	return c02Recover(func() string {
-		resp, err := w.w.HandleAuthorizeResponse(context.Background(), HandleAuthorizeResponseRequestObject{SubjectID: op.Subject, Body: &body})
-		if err != nil {
-			return c02Err(err)
-		}
-		r, ok := resp.(HandleAuthorizeResponse200JSONResponse)
-		if !ok {
-			return fmt.Sprintf("unexpected-response:%T", resp)
+		var r HandleAuthorizeResponse200JSONResponse
+		if op.HTTP {
+			form := url.Values{}
+			for k, v := range map[string]*string{"state": body.State, "vp_token": body.VpToken, "presentation_submission": body.PresentationSubmission} {
+				if v != nil {
+					form.Set(k, *v)
+				}
+			}
+			req := httptest.NewRequest(http.MethodPost, "/oauth2/"+url.PathEscape(op.Subject)+"/response", strings.NewReader(form.Encode()))
+			req.Header.Set("Content-Type", "application/x-www-form-urlencoded")
+			req.Header.Set("Accept", "application/json")
+			rec := httptest.NewRecorder()
+			w.echo.ServeHTTP(rec, req)
+			switch rec.Code {
+			case http.StatusOK:
+				if err := json.Unmarshal(rec.Body.Bytes(), &r); err != nil {
+					return "unparsable-200"
+				}
+			case http.StatusFound:
+				// errors that can be reported to the wallet's callback are redirects carrying error / error_description
+				loc, err := url.Parse(rec.Header().Get("Location"))
+				if err != nil {
+					return "unparsable-location"
+				}
+				return c02Err(oauth.OAuth2Error{Code: oauth.ErrorCode(loc.Query().Get("error")), Description: loc.Query().Get("error_description")})
+			default:
+				return w.httpToken(rec.Code, rec.Body.Bytes())
+			}
+		} else {
+			resp, err := w.w.HandleAuthorizeResponse(context.Background(), HandleAuthorizeResponseRequestObject{SubjectID: op.Subject, Body: &body})
+			if err != nil {
+				return c02Err(err)
+			}
+			var ok bool
+			if r, ok = resp.(HandleAuthorizeResponse200JSONResponse); !ok {
+				return fmt.Sprintf("unexpected-response:%T", resp)
+			}
 		}
 		u, err := url.Parse(r.RedirectURI)
 		if err != nil {
@@ -892,6 +993,15 @@ func (w *c02World) execCode(op *c02Op) string {
 	}
 	op.T = w.nowNs()
 	out := c02Recover(func() string {
+		if op.HTTP {
+			form := url.Values{"grant_type": {body.GrantType}}
+			for k, v := range map[string]*string{"code": body.Code, "code_verifier": body.CodeVerifier, "client_id": body.ClientId} {
+				if v != nil {
+					form.Set(k, *v)
+				}
+			}
+			return w.httpToken(w.post("/oauth2/"+url.PathEscape(op.Subject)+"/token", form, hdr))
+		}
 		resp, err := w.w.HandleTokenRequest(w.ctx(hdr, ""), HandleTokenRequestRequestObject{SubjectID: op.Subject, Body: &body})
 		if err != nil {
 			return c02Err(err)
@@ -2348,6 +2458,9 @@ func TestVerifC02(t *testing.T) {
 						op = c02Op{Op: "probe", Store: "state", Key: sess.State}
 					}
 				}
+			}
+			if (op.Op == "s2s" || op.Op == "code" || op.Op == "introspect" || op.Op == "authresp") && rng.Intn(4) == 0 {
+				op.HTTP = true
 			}
 			line := w.exec(&op)
 			if op.Op == "authreq" && pendingSess != nil && strings.HasPrefix(line, "302 ") {
